@@ -76,7 +76,7 @@ def hist_schemas():
     """The schemas of the history scenario: the SDL texts above plus a code-built schema whose custom scalar passes Python values
     through (JSON-like), with defaults that are EQUAL as Python values but different GraphQL literals (true / 1 / 1.0, false / 0)."""
     from py_gql import build_schema
-    from py_gql.schema import Argument, Field, Int, ListType, ObjectType, ScalarType, Schema
+    from py_gql.schema import ID, Argument, Field, Int, ListType, ObjectType, ScalarType, Schema
     schemas = []
     for s in HIST_SDL:
         try:
@@ -88,7 +88,9 @@ def hist_schemas():
         Field("f", Int, [Argument("yes", Any, default_value=True), Argument("one", Any, default_value=1), Argument("onef", Any, default_value=1.0)]),
         Field("g", Int, [Argument("zero", Any, default_value=0), Argument("no", Any, default_value=False), Argument("zerof", Any, default_value=0.0)]),
         # ... and the same values side by side INSIDE one list default
-        Field("h", Int, [Argument("mix", ListType(Any), default_value=[True, 1, False, 0, 1.0, 0.0])])])
+        Field("h", Int, [Argument("mix", ListType(Any), default_value=[True, 1, False, 0, 1.0, 0.0]),
+                         # an ID default that is digits followed by a line feed is a string, not the number it starts with
+                         Argument("since", ID, default_value="7\n"), Argument("from_", ID, default_value="42")])])
     q2 = ObjectType("Query", [
         Field("f", Int, [Argument("one", Any, default_value=1), Argument("yes", Any, default_value=True)]),
         Field("g", Int, [Argument("no", Any, default_value=False), Argument("zero", Any, default_value=0)]),
@@ -274,10 +276,12 @@ def run(chk):
         for f in sch.query_type.fields:
             for a in f.arguments:
                 def lit(v):
+                    if isinstance(v, str):
+                        return v if (str(a.type) == "ID" and v.isdigit() and v.isascii()) else json.dumps(v)
                     return "[%s]" % ", ".join(lit(x) for x in v) if isinstance(v, list) else {True: "true", False: "false"}[v] if isinstance(v, bool) else repr(v)
                 want = lit(a.default_value)
                 if "%s: %s = %s" % (a.name, a.type, want) not in text:
-                    out.setdefault("sdl/default-literal/custom-scalar/%s" % type(a.default_value).__name__,
+                    out.setdefault("sdl/default-literal/%s/%s" % ("custom-scalar" if "Any" in str(a.type) else a.type, type(a.default_value).__name__),
                                    ["a default of a pass-through custom scalar is printed as another literal", {"argument": a.name, "value": repr(a.default_value), "text": text}])
     sdl_origin_probe(out)
     failure_history_probe(out)
